@@ -665,7 +665,7 @@ class HGenSource(GenSource):
         r = self.rng.random()
         place = None if r < 0.4 else {"buf": w.bufs.index(o.buf), "how": "default"} if r < 0.7 else {"ctx": 0}
         also = [x.k for x in self.rng.sample(live, min(len(live), self.rng.choice([0, 0, 1, 2])))]
-        return {"op": "h_dict", "obj": o.k, "place": place, "also": also, "id": self.new_id()}
+        return {"op": "h_dict", "obj": o.k, "place": place, "also": also, "id": self.new_id(), "nocopy": self.rng.random() < 0.3}
 
     def h_restart(self, w):
         live = self.hlive(w)
@@ -1185,7 +1185,11 @@ class HStep(Step):
         schema = w.schema
         H = w.hclasses[o.t]
         try:
-            d = o.dressed.to_dict()
+            if op.get("nocopy"):
+                d = o.dressed.to_dict(copy_to_cpu=False)  # the dictionary is taken from the object itself
+                self.res.probe("to_dict_without_cpu_copy")
+            else:
+                d = o.dressed.to_dict()
         except Exception as e:
             self.outcome = "raised:" + exc_sig(e)
             self.viol("C19", "to_dict_raised", ["h_dict", exc_sig(e)], f"{type(e).__name__}: {e}; field kinds {self._kinds(o.t)}")
